@@ -27,6 +27,9 @@ ATOMS = ["bool", "int", "float", "str", "nes", "mime", "hash", "qhash", "dur", "
 CSTR = ["nes", "mime", "hash", "qhash"]
 STRLIKE = ["str"] + CSTR
 OPAQUE = ["dur", "unit", "qty"]
+# plain Python builtins as field types (pydantic's coercing validators + the schema Config's
+# anystr limits). Not part of ATOMS / the Lean grammar: used by C13's oracle-only `pln` cases.
+PLAIN_ATOMS = ["pstr", "pint", "pfloat", "pbool"]
 
 
 # --------------------------------------------------------------------------- term syntax
@@ -50,7 +53,7 @@ def lit_str(v):
 
 def ty_str(ty):
     k = ty[0]
-    if k in ATOMS:
+    if k in ATOMS or k in PLAIN_ATOMS:
         return k
     if k == "lit":
         return "lit(%s)" % ",".join(lit_str(v) for v in ty[1])
@@ -555,6 +558,8 @@ def to_hint(ty, ns, fwd=()):
     k = ty[0]
     if k in ATOMS:
         return real_atoms()[k]
+    if k in PLAIN_ATOMS:
+        return {"pstr": str, "pint": int, "pfloat": float, "pbool": bool}[k]
     if k == "lit":
         return typing.Literal[tuple(ty[1])]
     if k == "opt":
@@ -639,13 +644,13 @@ OMIT = _Omit()
 def gen_json(rng, ty, fam, depth, in_set=False):
     """A valid JSON *input* for the type (what a user would write)."""
     k = ty[0]
-    if k == "bool":
+    if k in ("bool", "pbool"):
         return rng.random() < 0.5
-    if k == "int":
+    if k in ("int", "pint"):
         return rng.choice(INT_POOL)
-    if k == "float":
+    if k in ("float", "pfloat"):
         return rng.choice(FLOAT_POOL)
-    if k == "str":
+    if k in ("str", "pstr"):
         return rng.choice(NES_POOL)
     if k == "nes":
         return rng.choice(NES_POOL)
